@@ -89,7 +89,7 @@ PROPS['C04'] = dict(
     technique='contract-based deductive verification (Verus) of the verbatim IfdefDirective / IfndefDirective arms against an IEEE 22.6 selection spec function, loop invariant over the `elsif chain',
     level_text='Deductive proof, for every chain length, every define table and every combination of condition outcomes, that on entering `ifdef/`ifndef the arm puts on the skip list the directive keywords, the identifiers and every group except the one IEEE 1800-2017 22.6 selects (first branch whose name is defined, `else if none); table mutations happen only in arms of the same match (un-skipped events).',
     level_note=ARMS_NOTE + ' Two call sites are genuinely wrong for predefined names in `elsif position and are listed as known findings; the clause for chains without predefined `elsif names must verify.',
-    not_covered=['that the event loop honours the skip list for arbitrary nesting (A-glue + C16)', 'token-for-token equality of the surviving text'],
+    not_covered=['that the event loop as a whole skips exactly the subtrees of listed nodes (the toggle arms and the position of `if skip { continue; }` are checked; the composition over the event sequence is A-glue + C16)', 'token-for-token equality of the surviving text'],
 )
 PROPS['C05'] = dict(
     title='macro expansion',
@@ -119,7 +119,7 @@ PROPS['C10'] = dict(
     technique='contract-based deductive verification (Verus) of the verbatim IncludeCompilerDirective arm incl. the include-path search loop; nested preprocessing as an uninterpreted function of named parameters',
     level_text='Deductive proof for any number and order of include paths that the file used is the given path when absolute or existing, else the first include path that contains it, else the given path; that the nested run receives the live define table, ignore_include=false, include_depth+1, that its table is adopted and its text/origins merged, that errors are wrapped once in Include, that a same-line item yields IncludeLine, and that the arm fires iff !ignore_include.',
     level_note=ARMS_NOTE + ' The ghost file system is constant during a call. Partial: file-name extraction is string trimming over uninterpreted functions.',
-    not_covered=['file-name extraction semantics of trim_matches etc.', 'the same-line rule for items AFTER the include (state spread over later events)', 'ignore_include: that a literal directive contributes no tokens'],
+    not_covered=['file-name extraction semantics of trim_matches etc.', 'composition of the same-line arms over the event sequence (each arm is proved; the loop is A-glue)', 'ignore_include: that a literal directive contributes no tokens'],
 )
 PROPS['C11'] = dict(
     title='define table',
